@@ -1,8 +1,8 @@
 SPECIFICATION Spec
-CONSTANTS ZMax = 2
+CONSTANTS ZMax = 1
           NoYGuard = FALSE
-          XBandLeftOpen = FALSE
-          NMin = 1
+          XBandLeftOpen = TRUE
+          NMin = 4
           N = 4
           GapMax = 2
           HMax = 2
@@ -10,6 +10,3 @@ CONSTANTS ZMax = 2
           HBMin = 1
           HBMax = 2
 INVARIANT ResultOk
-INVARIANT SelectedSeparated
-INVARIANT RemainingOutside
-INVARIANT RoundBound
